@@ -346,7 +346,7 @@ class Engine(Core, ExprMixin, CallMixin, StmtMixin):
                 # seed portfolio on the medium subset: quantifier instantiation is sensitive to the solver's random seed (measured: the
                 # same obligation is proved in 0.1-1.4 s with 4 of 12 seeds and never with the others).  Each attempt is limited by
                 # z3's deterministic resource counter, not by the clock, so the outcome does not depend on machine load.
-                for sd in range(1, 11):
+                for sd in (range(1, 11) if not getattr(self, "cheap_mode", False) else ()):
                     z3.set_param("smt.random_seed", sd)
                     s2 = z3.Solver()
                     s2.set("random_seed", sd)
@@ -368,6 +368,8 @@ class Engine(Core, ExprMixin, CallMixin, StmtMixin):
             for p in ob.path:
                 s.add(p)
             s.add(z3.Not(ob.goal))
+            if getattr(self, "cheap_mode", False) and not want_model:
+                s.set("timeout", min(timeout_ms, 5000))
         r = s.check()
         out = {"result": "unsat" if r == z3.unsat else ("sat" if r == z3.sat else "unknown")}
         if r == z3.unknown:
@@ -418,6 +420,10 @@ class Engine(Core, ExprMixin, CallMixin, StmtMixin):
             ob.backend = "z3-%s" % z3.get_version_string()
             if not chunks:
                 ob.result, ob.reason = "unknown", "hard timeout (solver killed after %.0fs)" % hard
+                if ob.kind != "probe":
+                    self.open_count = getattr(self, "open_count", 0) + 1
+                    if self.open_count >= 12:
+                        self.cheap_mode = True
                 return
             try:
                 res = json.loads(b"".join(chunks).decode())
@@ -428,6 +434,11 @@ class Engine(Core, ExprMixin, CallMixin, StmtMixin):
             ob.reason = res.get("reason")
             ob.model = res.get("model")
             ob.model_error = res.get("model_error")
+            if ob.result != "unsat" and ob.kind != "probe":
+                # once a unit has a dozen open obligations its verdict is settled: the remaining ones get the cheap stages only
+                self.open_count = getattr(self, "open_count", 0) + 1
+                if self.open_count >= 12:
+                    self.cheap_mode = True
 
         while pending or running:
             while pending and len(running) < nproc:
